@@ -64,7 +64,7 @@ func c19Run(x *core.Ctx) {
 		} else if i%5 == 0 {
 			d = gen.DeepSelections(r, 1+r.Intn(5))
 		} else {
-			d = gen.QueryDoc(r, &gen.QOpts{MaxDepth: 1 + r.Intn(4), Hostile: true, FragVars: true, VarDirs: true, KeywordNames: i%3 == 0, NoBlock: true})
+			d = gen.QueryDoc(r, &gen.QOpts{MaxDepth: 1 + r.Intn(4), Hostile: true, FragVars: true, VarDirs: true, KeywordNames: i%3 == 0, NoBlock: i%2 == 0})
 		}
 		c := core.NewCase("doc", "doc", rn.RenderDoc(d))
 		x.Do(c, func() { c19Check(x, c) })
